@@ -41,9 +41,12 @@ impl Tree {
     }
 
     pub fn insert(&mut self, cmd: Rc<CommandDefinition>) -> Result<(), Error> {
+        // A command consisting only of optional nodes also expands to the empty path,
+        // which no program header can spell.
         cmd.command
             .paths()
             .iter()
+            .filter(|path| !path.is_empty())
             .try_for_each(|path| self.insert_at(0, path, cmd.clone()))
     }
 
